@@ -49,9 +49,13 @@ func init() {
 			}
 			return in.St.Or(cs...)
 		},
-		ndPkg + ".Not":     func(in *Interp, fn *ssa.Function, a []Value) Value { return in.St.Not(a[0].(*sym.Term)) },
-		ndPkg + ".Implies": func(in *Interp, fn *ssa.Function, a []Value) Value { return in.St.Implies(a[0].(*sym.Term), a[1].(*sym.Term)) },
-		ndPkg + ".Iff":     func(in *Interp, fn *ssa.Function, a []Value) Value { return in.St.Eq(a[0].(*sym.Term), a[1].(*sym.Term)) },
+		ndPkg + ".Not": func(in *Interp, fn *ssa.Function, a []Value) Value { return in.St.Not(a[0].(*sym.Term)) },
+		ndPkg + ".Implies": func(in *Interp, fn *ssa.Function, a []Value) Value {
+			return in.St.Implies(a[0].(*sym.Term), a[1].(*sym.Term))
+		},
+		ndPkg + ".Iff": func(in *Interp, fn *ssa.Function, a []Value) Value {
+			return in.St.Eq(a[0].(*sym.Term), a[1].(*sym.Term))
+		},
 		ndPkg + ".IteInt": func(in *Interp, fn *ssa.Function, a []Value) Value {
 			return in.St.Ite(a[0].(*sym.Term), a[1].(*sym.Term), a[2].(*sym.Term))
 		},
@@ -132,7 +136,7 @@ func init() {
 			}
 			return concStr(s.alts[in.choose(conds, "pin string")])
 		},
-		ndPkg + ".Symbolic":  func(in *Interp, fn *ssa.Function, a []Value) Value { return in.St.True },
+		ndPkg + ".Symbolic": func(in *Interp, fn *ssa.Function, a []Value) Value { return in.St.True },
 		ndPkg + ".Reach": func(in *Interp, fn *ssa.Function, a []Value) Value {
 			in.reached = append(in.reached, "reach:"+a[0].(*Str).conc)
 			return nil
@@ -246,8 +250,8 @@ func init() {
 			b := in.St.Int(int64(s.conc[0]))
 			return &Str{kind: sView, length: n, max: -1, origin: "repeat", at: func(i *sym.Term) *sym.Term { return b }}
 		},
-		"strings.Clone":                 func(in *Interp, fn *ssa.Function, a []Value) Value { return a[0] },
-		"internal/stringslite.Clone":    func(in *Interp, fn *ssa.Function, a []Value) Value { return a[0] },
+		"strings.Clone":              func(in *Interp, fn *ssa.Function, a []Value) Value { return a[0] },
+		"internal/stringslite.Clone": func(in *Interp, fn *ssa.Function, a []Value) Value { return a[0] },
 		"strings.EqualFold": func(in *Interp, fn *ssa.Function, a []Value) Value {
 			x, y := a[0].(*Str), a[1].(*Str)
 			if x.kind == sConc && y.kind == sConc {
@@ -259,6 +263,22 @@ func init() {
 			x, y := a[0].(*Str), a[1].(*Str)
 			if x.kind == sConc && y.kind == sConc {
 				return in.St.Int(int64(strings.Index(x.conc, y.conc)))
+			}
+			if y.kind == sConc {
+				// first occurrence of a concrete needle in a bounded symbolic subject
+				st := in.St
+				v := in.toView(x)
+				n := in.needMax(v, "strings.Index")
+				k := len(y.conc)
+				res := st.Int(-1)
+				for i := n - k; i >= 0; i-- {
+					cs := []*sym.Term{st.Le(st.Int(int64(i+k)), v.length)}
+					for j := 0; j < k; j++ {
+						cs = append(cs, st.Eq(v.at(st.Int(int64(i+j))), st.Int(int64(y.conc[j]))))
+					}
+					res = st.Ite(st.And(cs...), st.Int(int64(i)), res)
+				}
+				return res
 			}
 			in.fail("strings.Index on symbolic strings")
 			return nil
@@ -344,6 +364,13 @@ func init() {
 		// ----- fmt -----
 		"fmt.Sprintf": func(in *Interp, fn *ssa.Function, a []Value) Value {
 			return in.sprintf(a[0].(*Str), in.sliceElems(a[1]))
+		},
+		// Fprintf / Fprint / Fprintln into a *strings.Builder (the only writers the repository formats into)
+		"fmt.Fprintf": func(in *Interp, fn *ssa.Function, a []Value) Value {
+			p := in.builderWriter(a[0])
+			out := in.sprintf(a[1].(*Str), in.sliceElems(a[2])).(*Str)
+			in.builders[p.cell] = in.strConcat(in.builderGet(p), out)
+			return TupleV{in.strLen(out), &IfaceV{}}
 		},
 		"fmt.Sprint": func(in *Interp, fn *ssa.Function, a []Value) Value {
 			vs := in.sliceElems(a[0])
@@ -486,11 +513,11 @@ func init() {
 			in.syncPools[k] = append(in.syncPools[k], a[1])
 			return nil
 		},
-		"(*sync.Mutex).Lock":    func(in *Interp, fn *ssa.Function, a []Value) Value { in.inOnce++; return nil },
-		"(*sync.Mutex).Unlock":  func(in *Interp, fn *ssa.Function, a []Value) Value { in.inOnce--; return nil },
-		"(*sync.RWMutex).Lock":  func(in *Interp, fn *ssa.Function, a []Value) Value { in.inOnce++; return nil },
-		"(*sync.RWMutex).Unlock": func(in *Interp, fn *ssa.Function, a []Value) Value { in.inOnce--; return nil },
-		"(*sync.RWMutex).RLock": func(in *Interp, fn *ssa.Function, a []Value) Value { return nil },
+		"(*sync.Mutex).Lock":      func(in *Interp, fn *ssa.Function, a []Value) Value { in.inOnce++; return nil },
+		"(*sync.Mutex).Unlock":    func(in *Interp, fn *ssa.Function, a []Value) Value { in.inOnce--; return nil },
+		"(*sync.RWMutex).Lock":    func(in *Interp, fn *ssa.Function, a []Value) Value { in.inOnce++; return nil },
+		"(*sync.RWMutex).Unlock":  func(in *Interp, fn *ssa.Function, a []Value) Value { in.inOnce--; return nil },
+		"(*sync.RWMutex).RLock":   func(in *Interp, fn *ssa.Function, a []Value) Value { return nil },
 		"(*sync.RWMutex).RUnlock": func(in *Interp, fn *ssa.Function, a []Value) Value { return nil },
 
 		// ----- os (environment = nondeterministic stub) -----
@@ -1033,6 +1060,23 @@ func (in *Interp) toGoAny(v Value) (interface{}, bool) {
 	return nil, false
 }
 
+// builderWriter: the *strings.Builder behind an io.Writer argument (anything else is not modelled)
+func (in *Interp) builderWriter(w Value) *Ptr {
+	if iv, ok := w.(*IfaceV); ok {
+		w = iv.val
+	}
+	p, ok := w.(*Ptr)
+	if !ok || p.IsNil() {
+		in.fail("fmt.Fprintf into an unmodelled writer %T", w)
+	}
+	if _, isBuilder := in.builders[p.cell]; !isBuilder {
+		if sv, ok := in.load(p).(*StructV); !ok || sv.typ == nil || in.P.LookupType("strings", "Builder") == nil || !types.Identical(sv.typ, in.P.LookupType("strings", "Builder").Underlying()) {
+			in.fail("fmt.Fprintf into an unmodelled writer")
+		}
+	}
+	return p
+}
+
 func (in *Interp) sprintf(format *Str, args []Value) Value {
 	if format.kind != sConc {
 		in.fail("Sprintf with symbolic format")
@@ -1265,9 +1309,9 @@ func normEnum(s *Str, live []int) *Str {
 
 type symReader struct{ s *Str }
 type symScanner struct {
-	lines []*Str
-	idx   int
-	limit int // maximum token size (bufio.MaxScanTokenSize unless Buffer was called)
+	lines  []*Str
+	idx    int
+	limit  int       // maximum token size (bufio.MaxScanTokenSize unless Buffer was called)
 	limitT *sym.Term // symbolic maximum given to Buffer (nil if concrete)
 }
 
